@@ -44,3 +44,64 @@ func H_C15_chunk_heading_level() {
 	vAssert("title-follows", len(md) >= n+6 && md[n+1:n+6] == "Title")
 	vReach("end")
 }
+
+// H_C15_collection_headings: a collection's Markdown has one heading per section change - also when a later section
+// reuses the title of an earlier one - with the level of that section.
+//
+//symgo:harness prop=C15 kernel=K2b-collection-headings
+//symgo:desc collection of 3..4 chunks whose section titles are drawn from {"Chapter One", "Summary", "Chapter Two"} (enumerated per chunk, repeats allowed, levels 1 for chapters and 2 for Summary); ToMarkdownWithOptions without front matter or table of contents: the sequence of ATX heading lines equals the sequence of section changes (a title equal to the previous chunk's is not repeated; a title seen earlier but not adjacent is written again), each with its level, and every chunk's text appears
+func H_C15_collection_headings() {
+	titles := []string{"Chapter One", "Summary", "Chapter Two"}
+	levels := []int{1, 2, 1}
+	n := vAnyIntIn(3, 4)
+	cc := &ChunkCollection{}
+	var want []string
+	prev := ""
+	for i := 0; i < n; i++ {
+		k := vAnyIntIn(0, 2)
+		cc.Chunks = append(cc.Chunks, &Chunk{ID: "c" + string(rune('0'+i)), Text: "Body" + string(rune('A'+i)) + " text.",
+			Metadata: ChunkMetadata{SectionTitle: titles[k], HeadingLevel: levels[k], ChunkIndex: i}})
+		if titles[k] != prev {
+			want = append(want, repeatHash(levels[k])+" "+titles[k])
+			prev = titles[k]
+		}
+	}
+	opts := DefaultMarkdownOptions()
+	opts.IncludeMetadata, opts.IncludeTableOfContents = false, false
+	md := cc.ToMarkdownWithOptions(opts)
+	var got []string
+	start := 0
+	for i := 0; i <= len(md); i++ {
+		if i == len(md) || md[i] == '\n' {
+			if i > start && md[start] == '#' {
+				got = append(got, md[start:i])
+			}
+			start = i + 1
+		}
+	}
+	vAssert("one-heading-per-section-change", len(got) == len(want))
+	for i := range want {
+		vAssert("heading-text-and-level", i < len(got) && got[i] == want[i])
+	}
+	for i := 0; i < n; i++ {
+		vAssert("chunk-text-present", vContains(md, "Body"+string(rune('A'+i))+" text."))
+	}
+	vReach("end")
+}
+
+func repeatHash(n int) string {
+	s := ""
+	for i := 0; i < n; i++ {
+		s += "#"
+	}
+	return s
+}
+
+func vContains(s, sub string) bool {
+	for i := 0; i+len(sub) <= len(s); i++ {
+		if s[i:i+len(sub)] == sub {
+			return true
+		}
+	}
+	return false
+}
